@@ -394,6 +394,13 @@ package dag
 //@        && arg(1) == dbEvent.Hash && same(arg(call .receiver #1, 0), *dbEvent)
 //@   ensures [unfinished-is-an-error] did(call .receiver #1) && (!isNilIface(ret(call .receiver #1).1) || ret(call .receiver #1).0 == false) ==> !isNilIface(result)
 //@   ensures [success-only-when-finished-or-gone] isNilIface(result) ==> !did(call .receiver #1) || (did(call (*notifier).Finished #1) && isNilIface(ret(call (*notifier).Finished #1)))
+// A receiver's error is examined with errors.As (receivers wrap EventFatal with %w); when it is fatal the
+// event is written back with the retry budget spent, so that no one offers it to the receiver again.
+//@   ensures [fatal-is-recognised-through-wrapping] did(call .receiver #1) && !isNilIface(ret(call .receiver #1).1) ==> did(call errors.As #1) && arg(call errors.As #1, 0) == ret(call .receiver #1).1
+
+//@ func (*notifier).notifyNow$2
+//@   prop C14
+//@   call (*notifier).writeEvent #1 requires [fatal-spends-the-retry-budget] !(did(call errors.As #1) && ret(call errors.As #1) == true) || arg(2).Retries > maxRetries
 
 // A failed notification is retried unless the receiver said it is fatal.
 //@ func (*notifier).Notify
